@@ -102,3 +102,22 @@ Theorem C15_source_write_budget :
   NW.Gen.Headroom.permits_kept_until_release = true /\
   (3 <=? NW.Gen.Headroom.single_buffer_sites)%N = true.
 Proof. repeat split; reflexivity. Qed.
+
+(* ---- a close request against a pending write (Model/ConnLoop.v; proofs in Proofs/ConnLoopProofs.v) ----
+   Whether the batch write is raced with the close channel and the shutdown token is read off the current source
+   (Gen/Headroom.write_raced_with_close).  If it is, a close request ends the connection at once after any history; if it
+   is not — the current code, known finding K15a — a connection whose write never completes outlives every close
+   request (while a peer that does take the batch is closed right after it). *)
+From NW Require Import Model.ConnLoop Proofs.ConnLoopProofs.
+
+Theorem C15_close_request_against_a_pending_write :
+  if NW.Gen.Headroom.write_raced_with_close
+  then forall pre i rest, is_close i = true -> ph (lrun true linit (pre ++ i :: rest)) = LEnded
+  else (forall rest, forallb (fun i => negb (is_write_done i)) rest = true ->
+                     ph (lrun false linit (IEnqueue :: IClose :: rest)) = LWriting)
+       /\ (forall s, ph s = LWriting -> ph (lrun false s [IClose; IWriteDone]) = LEnded).
+Proof.
+  destruct NW.Gen.Headroom.write_raced_with_close.
+  - exact raced_after_any_history.
+  - split; [exact unraced_stalled_peer_is_never_closed_refuted | exact unraced_closes_after_the_write].
+Qed.
